@@ -220,6 +220,9 @@ func (p *ProofD) reconstructZ(pk *gabikeys.PublicKey) (*big.Int, error) {
 	numerator := new(big.Int).Lsh(big.NewInt(1), pk.Params.Le-1)
 	numerator.Exp(p.A, numerator, pk.N)
 	for i, attribute := range p.ADisclosed {
+		if _, hidden := p.AResponses[i]; hidden {
+			return nil, errors.New("attribute is both disclosed and hidden")
+		}
 		exp := attribute
 		if exp.BitLen() > int(pk.Params.Lm) {
 			exp = common.IntHashSha256(exp.Bytes())
